@@ -74,7 +74,7 @@ class TRSpec(object):
         fs = fresh('force', z3.BoolSort()); st.wr(selfv, '_force_sample', B(fs))
         st.g[OPFLAG] = z3.Array('OPFLAG', z3.IntSort(), z3.BoolSort())
         if mode == 'playback':
-            pb = st.sym_obj('pbrec', 'Recording', False); objs.append(pb)
+            pb = st.sym_obj('pbrec', 'Recording', False); objs.append(pb); st.g['stored_recordings'] = (pb.get_id(),)
             st.wr(selfv, '_playback_recording', pb); st.wr(selfv, '_active_recording', NONE); st.wr(selfv, '_active_recording_parameters', NONE)
             st.assume(z3.Not(fs))
         elif mode == 'recording':
@@ -95,11 +95,12 @@ class TRSpec(object):
         for p, cls in (('args', 'tuple'), ('kwargs', 'dict')):
             if p in fr:
                 fr[p] = st.sym_obj(p, cls); objs.append(fr[p])
-        st.assume(z3.Distinct(*[Val.addr(o) for o in objs]))
+        st.assume(z3.Distinct(*[Val.addr(o) for o in objs])); self.objs = objs
         m, cls, node, info = self.repo.find(fn_qual)
         st.push(fr, None, (m.name, cls, node))
         st.g['old'] = dict(dmap=st.g['dmap'], ddom=st.g['ddom'], seq=st.g['seq'], active=st.rd(selfv, '_active_recording'),
-                           pbout=st.seq(st.rd(selfv, '_playback_outputs')), counter=st.rd(selfv, '_invoke_counter'), opflag=st.g[OPFLAG])
+                           pbout=st.seq(st.rd(selfv, '_playback_outputs')), counter=st.rd(selfv, '_invoke_counter'), opflag=st.g[OPFLAG],
+                           pb=st.rd(selfv, '_playback_recording'))
         self.fr = fr
         return st, selfv, fr, node, info
 
@@ -356,7 +357,7 @@ class TRSpec(object):
     def c_get_recording(self, ex, st, args, kw, node, star, dstar):
         lib.used('interface TapeCassette.get_recording: a recording or NoSuchRecording (proved per cassette in C07)')
         s2 = st.copy()
-        r = st.sym_obj('fetched', 'Recording', False); st.g['fetched'] = r
+        r = st.sym_obj('fetched', 'Recording', False); st.g['fetched'] = r; st.g['stored_recordings'] = tuple(st.g.get('stored_recordings', ())) + (r.get_id(),)
         md = st.sym_obj('fetched_meta', 'dict'); st.wr(r, 'ghost_meta', md)
         e = s2.exc_obj('NoSuchRecording'); s2.trace.append(dict(kind='Iface', name='get_recording', outcome=('raise', e)))
         return [(st, ('val', r)), (s2, ('exc', e))]
@@ -390,6 +391,11 @@ class TRSpec(object):
                             z3.And(z3.Not(sH.dhas(orig, S('exception'))), sH.dhas(orig, S('value')))))
             sH.assume(z3.And(Val.is_ref(CP(ev_)) == Val.is_ref(ev_), TYP(Val.addr(CP(ev_))) == TYP(Val.addr(ev_))))
             sH.g['notes'].append(('get_data', rec, k, c, orig)); outs.append((sH, ('val', c)))
+            # copying a value that has not been through storage yet may fail (unserialisable): an ordinary exception (A1).  Recordings that
+            # were fetched from a cassette hold only values that were serialised before, their copies do not fail.
+            if rec.get_id() not in st.g.get('stored_recordings', ()):
+                s9 = sH.copy(); s9.g['notes'] = [n_ for n_ in s9.g['notes'] if n_[0] != 'get_data' or n_[3] is not c]
+                outs.append((s9, ('exc', s9.sym_exc(ordinary=True, label='exc_copy'))))
         return outs
 
     def c_add_metadata(self, ex, st, args, kw, node, star, dstar):
